@@ -133,7 +133,7 @@ func vfC20Gen(rt *rapid.T) vfC20Case {
 			for i := 0; i < nv; i++ {
 				v := make([]float32, rapid.IntRange(1, 4).Draw(rt, "train_len"))
 				for j := range v {
-					v[j] = float32(sc * rapid.Float64Range(-1, 1).Draw(rt, "train_val"))
+					v[j] = float32(sc * vfSnap(rapid.Float64Range(-1, 1).Draw(rt, "train_val"))) // no float32 subnormals
 				}
 				rd.Train = append(rd.Train, v)
 			}
